@@ -25,6 +25,10 @@ Table ==
                                 <<"t", "blte30", 50>>, <<"u", "blte0", 20>>, <<"x", "nested", 40>> >>
     [] Family = "classes3" -> << <<"n", "nested", 100>>, <<"t", "blte30", 50>>, <<"u", "blte0", 20>>,
                                 <<"x", "nested", 40>> >>
+    \* family "fill": besides the table, the operations fill(n) / churn(n) write n fresh small objects
+    \* whose keys share one index bucket (churn removes each again); 21 entries = one page of the
+    \* bucket's update log, so 22 and 43 cross one and two page boundaries (11 pairs = 22 log entries)
+    [] Family = "fill"    -> << <<"a", "plain", 100>>, <<"x", "plain", 40>> >>
 
 Names    == {Table[i][1] : i \in 1..Len(Table)}
 Never    == Table[Len(Table)][1]
@@ -35,7 +39,16 @@ Row(p)   == Table[CHOOSE i \in 1..Len(Table) : Table[i][1] = p]
 Desc(p) == LET cls == Row(p)[2]  n == Row(p)[3] IN
   [len |-> n, blte0 |-> cls \in {"blte0", "nested"} /\ n >= 4,
    blte30 |-> cls \in {"blte30", "hdrnested"} /\ n >= 34]
-DescOf == [p \in Names |-> Desc(p)]
+\* objects created by fill / churn: f1, f2, ... in order of creation (the driver picks concrete
+\* 16..28-byte objects by bucket; the model only needs that they are fresh, small and plain)
+FillNs   == IF Family = "fill" THEN {22, 43} ELSE {}
+ChurnNs  == IF Family = "fill" /\ Comp = "dyn" THEN {11} ELSE {}
+Bucket   == 5
+FName(i) == "f" \o ToString(i)
+FillAll  == IF Family = "fill" THEN {FName(i) : i \in 1..(43 * (D + 1))} ELSE {}
+FillDesc == [len |-> 20, blte0 |-> FALSE, blte30 |-> FALSE]
+AllNames == Names \cup FillAll
+DescOf == [p \in AllNames |-> IF p \in Names THEN Desc(p) ELSE FillDesc]
 \* a second decode finds a decodable inner stream (otherwise it fails)
 Inner(p) == (Row(p)[2] = "nested" /\ Row(p)[3] >= 9) \/ (Row(p)[2] = "hdrnested" /\ Row(p)[3] >= 39)
 
@@ -44,10 +57,21 @@ Overhead == 39
 
 Written == DOMAIN c.endOf
 
+NF == Cardinality(Written \ Names)     \* fill objects created so far
+
+RECURSIVE FillC(_, _, _, _)
+FillC(cc, k, n, rm) ==     \* n appends (each followed by a remove if rm) of f(k+1) .. f(k+n)
+  IF n = 0 THEN cc
+  ELSE LET c1 == CWrite(cc, Comp, FName(k + 1), cc.flen + Overhead + FillDesc.len)
+           c2 == IF rm THEN CRemove(c1, Comp, FName(k + 1)) ELSE c1
+       IN FillC(c2, k + 1, n - 1, rm)
+
 Ops ==
   {[op |-> "write", p |-> p] : p \in Writable} \cup
-  {[op |-> "read", p |-> p] : p \in Written \cup {Never}} \cup
-  (IF Comp = "dyn" THEN {[op |-> "remove", p |-> p] : p \in Written} \cup {[op |-> "flush"]} ELSE {}) \cup
+  {[op |-> "read", p |-> p] : p \in (Written \cap Names) \cup {Never}} \cup
+  {[op |-> "fill", n |-> n, bucket |-> Bucket] : n \in FillNs} \cup
+  {[op |-> "churn", n |-> n, bucket |-> Bucket] : n \in ChurnNs} \cup
+  (IF Comp = "dyn" THEN {[op |-> "remove", p |-> p] : p \in Written \cap Names} \cup {[op |-> "flush"]} ELSE {}) \cup
   (IF Comp = "arch" THEN {[op |-> "compact"]} ELSE {}) \cup
   {[op |-> "reopen"]}
 
@@ -57,6 +81,12 @@ Do(e) ==
     [] e.op = "read"   -> LET r  == CReadPred(c, Comp, e.p, Desc(e.p))
                               ok == r.outs = {"exact"} \/ r.outs = {"other"} \/ ("other" \in r.outs /\ Inner(e.p))
                           IN a' = a /\ c' = CReadDone(c, Comp, e.p, ok)
+    [] e.op = "fill"   -> LET new == {FName(i) : i \in (NF + 1)..(NF + e.n)} IN
+                          /\ a' = [live |-> a.live \cup new, maybe |-> a.maybe \ new]
+                          /\ c' = FillC(c, NF, e.n, FALSE)
+    [] e.op = "churn"  -> LET new == {FName(i) : i \in (NF + 1)..(NF + e.n)} IN
+                          /\ a' = [live |-> a.live \ new, maybe |-> a.maybe \cup new]
+                          /\ c' = FillC(c, NF, e.n, TRUE)
     [] e.op = "remove" -> a' = ARemove(a, e.p) /\ c' = CRemove(c, Comp, e.p)
     [] e.op = "flush"  -> a' = a /\ c' = CFlush(c, Comp)
     [] e.op = "compact" -> UNCHANGED <<a, c>>
@@ -67,9 +97,9 @@ MCNext == \E e \in Ops : Do(e) /\ hist' = Append(hist, e)
 Constr == Len(hist) <= D
 
 InvDurable == Durable(a, c, Comp, DescOf)
-InvNoGhost == NoGhost(a, c, Comp, Names, DescOf)
+InvNoGhost == NoGhost(a, c, Comp, AllNames, DescOf)
 InvMap     == MapCovers(c)
-InvType    == /\ a.live \cap a.maybe = {} /\ a.live \cup a.maybe \subseteq Names
+InvType    == /\ a.live \cap a.maybe = {} /\ a.live \cup a.maybe \subseteq AllNames
               /\ c.idx \subseteq Written /\ c.disk \subseteq Written /\ c.cache \subseteq c.idx
               /\ c.mlen <= c.flen /\ \A p \in Written : c.endOf[p] <= c.flen
 
